@@ -178,7 +178,8 @@ class Analysis:
         for f in funcs:
             self.returns_fresh[f.qual] = None
             self.mutates[f.qual] = set()
-        for rnd in range(6):
+        unstable, flips = {}, {}
+        for rnd in range(14):
             changed = False
             self.effects = {}
             self.vivify = []
@@ -194,9 +195,17 @@ class Analysis:
                 if "cached_property" in f.decorators:
                     rf = Val(DERIVED, root="cache") if rf is not None else None
                 old = self.returns_fresh[f.qual]
+                if f.qual in unstable:
+                    rf = unstable[f.qual]  # pinned to the conservative answer (see below)
                 if (old is None) != (rf is None) or (old is not None and (old.kind != rf.kind or old.vfresh != rf.vfresh)):
                     self.returns_fresh[f.qual] = rf
                     changed = True
+                    flips[f.qual] = flips.get(f.qual, 0) + 1
+                    if flips[f.qual] >= 4:
+                        # a summary that keeps flipping (a recursive function whose result depends on its own summary): pin it to
+                        # "returns something derived from its receiver", the answer that can only add obligations
+                        unstable[f.qual] = Val(DERIVED, root="self" if f.cls is not None else "param:?")
+                        self.returns_fresh[f.qual] = unstable[f.qual]
                 mp = set()
                 for e in w.effects:
                     if e.val.kind == DERIVED and e.val.root and e.val.root.startswith("param:"):
@@ -205,8 +214,9 @@ class Analysis:
                         mp.add(e.val.root[6:])
                     elif e.val.kind == DERIVED and e.val.root == "self" and e.field not in MEMO_FIELDS:
                         mp.add("self")
-                if mp != self.mutates[f.qual]:
-                    self.mutates[f.qual] = mp
+                if not (mp <= self.mutates[f.qual]) or (mp != self.mutates[f.qual] and rnd < 3):
+                    # after the first rounds the mutated-parameter sets only grow (monotone, hence terminating)
+                    self.mutates[f.qual] = (mp | self.mutates[f.qual]) if rnd >= 3 else mp
                     changed = True
             if not changed:
                 break
